@@ -267,7 +267,8 @@ def run_with(N, names, refine=False):
         if nm.startswith("env:"):          # "env:<objective>:<box>" selects another objective / box for this run
             _, cfg["env"], cfg["box"] = nm.split(":")
     pre = [int(v) for nm in names if nm.startswith("pre:") for v in nm[4:].split(",")]   # "pre:4,5": batches before Solve
-    names = [nm for nm in names if not nm.startswith(("env:", "pre:"))]
+    names_all = list(names)
+    names = [nm for nm in names if not nm.startswith(("env:", "pre:")) and nm != "swapout"]
     lo, up = box(cfg["box"], N)
     f = make_env(cfg["env"], cfg)
     p = EnvProblem(N, lo, up, f)
@@ -285,12 +286,24 @@ def run_with(N, names, refine=False):
             for nm in names:
                 if nm == "rec":
                     s.AddListener(make_listener_class(7, events)())
+                elif nm == "peek":
+                    from mc.tree import Peeker
+                    pk = type("PeekerL", (Peeker, L.Listener), {})()
+                    s.AddListener(pk)
                 else:
                     s.AddListener(specs[nm][1](d))
             try:
                 for b_ in pre:
                     s.DoGlobalIteration(b_)
-                sol = s.Solve()
+                if "swapout" in names_all:
+                    # the user redirects the output elsewhere between the step-wise part and Solve (the old stream is closed)
+                    buf2 = io.StringIO()
+                    with contextlib.redirect_stdout(buf2):
+                        buf.close()
+                        sol = s.Solve()
+                    buf = buf2
+                else:
+                    sol = s.Solve()
             except BaseException as e:
                 err = f"{type(e).__name__}: {e}"
                 sol = None
@@ -343,7 +356,7 @@ def console_report_ok(res):
 
 def shipped_case(task):
     N, names, refine = task["N"], task["names"], bool(task.get("refine"))
-    ref = run_with(N, [n for n in names if n.startswith(("env:", "pre:"))], refine)
+    ref = run_with(N, [n for n in names if n.startswith(("env:", "pre:")) or n == "swapout"], refine)
     got = run_with(N, names, refine)
     ctx = f"N={N} listeners {names}" + (" refineSolution=True" if refine else "")
     if ref.get("error"):
@@ -408,6 +421,11 @@ def run(ctx):
         for mode in ("full", "custom", "result"):
             for pre in ("pre:4,5", "pre:7", "pre:2,2,2,6"):
                 stasks.append(dict(N=N, names=[f"console-{mode}-N{N}", pre]))
+        # a read-only listener that walks the search information partly; the output stream replaced before Solve
+        stasks.append(dict(N=N, names=["peek", "pre:3,2"]))
+        stasks.append(dict(N=N, names=["peek", f"console-full-N{N}"]))
+        for mode in ("full", "result"):
+            stasks.append(dict(N=N, names=[f"console-{mode}-N{N}", "pre:4,5", "swapout"]))
         # a long run (700 trials, minimum at the end of the curve) with a recorder and each console mode
         if N == 1:
             stasks.append(dict(N=1, names=["rec", "env:lin:B1"]))
